@@ -246,6 +246,10 @@ func runC05(c *Ctx) {
 	c.looked("handlePacket")
 	pos := func(in ssa.Instruction) string { return p.Pos(in.Pos()) }
 	checkEffectErrorsReachTheReply(c, "R13")
+	checkStatvfsFromNamesakes(c, "R14")
+	// R15 (shared with C17.R3): a set-attributes request does what os.Truncate/Chmod/Chown/Chtimes do with the values sent
+	// (which object FSETSTAT's calls name, and their order, are C17's known findings F37/F38 and are not repeated here)
+	c.withRule("R15", func() { checkSetstatApplication(c, false) })
 
 	// ---------- R1 request -> os table ----------
 	top, specific := requestTypes(c, "R1")
@@ -496,6 +500,20 @@ func runC05(c *Ctx) {
 					continue
 				}
 				sawJoin = true
+				// … of the working directory and the path as it came (not of a cleaned or re-rooted copy of it)
+				if els := variadicElems(call.Call.Args[0]); len(els) != 2 || len(tl.Params) < 2 || els[1] != ssa.Value(tl.Params[1]) {
+					other = true
+				} else {
+					isWD := false
+					for _, lf := range leavesOf(els[0]) {
+						if lf.Kind == leafFieldLoad && lf.Field == "workDir" {
+							isWD = true
+						}
+					}
+					if !isWD {
+						other = true
+					}
+				}
 				g := false
 				conds := edgeConds(rl.block, rl.pred)
 				for cv, truth := range edgeConds(call.Block(), nil) {
@@ -1316,6 +1334,24 @@ func checkGlobComposite(c *Ctx, rule string) {
 		return
 	}
 	c.looked("(*Client).Glob")
+	// the directory expander asks Stat (filepath.glob asks os.Stat): a symbolic link to a directory is descended into
+	if g := p.Func("(*Client).glob"); g == nil {
+		c.missing(rule, "(*Client).glob")
+	} else {
+		var stats, lstats int
+		eachInstr(g, func(in ssa.Instruction) {
+			if cc := callOf(in); cc != nil && cc.StaticCallee() != nil {
+				switch fnName(cc.StaticCallee()) {
+				case "(*Client).Stat":
+					stats++
+				case "(*Client).Lstat":
+					lstats++
+				}
+			}
+		})
+		c.check(stats == 1 && lstats == 0, rule, "glob asks Stat whether the directory part is a directory", p.Pos(g.Pos()), "c.Stat(dir), as filepath.glob asks os.Stat",
+			fmt.Sprintf("the directory expander of Glob calls Stat %d times and Lstat %d times: with Lstat a symbolic link to a directory is not descended into and the matches below it are lost (filepath.Glob returns them)", stats, lstats))
+	}
 	pat := fn.Params[1]
 	var validate ssa.Instruction
 	eachInstr(fn, func(in ssa.Instruction) {
@@ -1620,4 +1656,47 @@ func allAnon(fn *ssa.Function) []*ssa.Function {
 		out = append(out, allAnon(a)...)
 	}
 	return out
+}
+
+// checkStatvfsFromNamesakes (C05.R14): the statvfs reply is the kernel's statfs, field for field.  In every platform's
+// statvfsFromStatfst the counters that have a namesake in syscall.Statfs_t are copied from it: Bsize, Blocks, Bfree,
+// Bavail, Files, Ffree (Frsize may fall back on Bsize, Favail on Ffree; Fsid, Flag and Namemax differ per platform and
+// are not judged).  Bavail taken from Bfree overstates the space an unprivileged user may use.
+func checkStatvfsFromNamesakes(c *Ctx, rule string) {
+	p := c.P
+	fn := p.Func("statvfsFromStatfst")
+	if fn == nil {
+		// platforms without statvfs (windows, plan9: the stub answers op-unsupported)
+		c.okT(rule, "statvfs fields come from their namesakes", "?", "no statvfsFromStatfst in this configuration")
+		return
+	}
+	allowed := map[string][]string{
+		"Bsize": {"Bsize"}, "Blocks": {"Blocks"}, "Bfree": {"Bfree"}, "Bavail": {"Bavail"}, "Files": {"Files"}, "Ffree": {"Ffree"},
+		"Frsize": {"Frsize", "Bsize"}, "Favail": {"Ffree", "Favail"},
+	}
+	n := 0
+	for _, lit := range literalsOf(fn, "StatVFS") {
+		for dst, srcs := range allowed {
+			v := litField(lit, dst)
+			if v == nil {
+				c.bad(rule, "StatVFS."+dst+" is filled", p.Pos(lit.Pos()), "the statvfs reply leaves "+dst+" at zero")
+				continue
+			}
+			n++
+			got := "?"
+			for _, l := range leavesOf(v) {
+				if l.Kind == leafFieldLoad {
+					got = l.Field
+				}
+			}
+			ok := false
+			for _, s := range srcs {
+				if got == s {
+					ok = true
+				}
+			}
+			c.check(ok, rule, "StatVFS."+dst+" comes from its namesake", p.Pos(lit.Pos()), "← Statfs_t."+got, fmt.Sprintf("StatVFS.%s is taken from Statfs_t.%s: the client's StatVFS reports another quantity than the file system's statfs", dst, got))
+		}
+	}
+	c.check(n >= 8, rule, "statvfs fields examined", p.Pos(fn.Pos()), fmt.Sprintf("%d fields", n), fmt.Sprintf("only %d fields of the StatVFS literal found", n))
 }
